@@ -22,7 +22,7 @@ VERIF = tlc.VERIF
 
 DEFAULT_CONSTS = dict(MaxQ=1, MaxClk=0, Delays={0}, Advances=set(), Params={0},
                       Opt={'ignore': False, 'metas': True}, MaxCFail=0, MaxMFail=0, MaxLevel=12,
-                      EmitEdges=True)
+                      EmitEdges=True, Twin='')
 
 
 def model_check(name, charts, prop, consts, timeout, workers=16, simulate=None, emit=True):
@@ -92,7 +92,7 @@ def replay(charts, jobs, procs=16):
 
 # ------------------------------------------------------------------ random drivers (code side)
 
-def random_history(rng, c, length, delays=(0,), advances=(), params=(0,), pfail=0.0, maxq=3):
+def random_history(rng, c, length, delays=(0,), advances=(), params=(0,), pfail=0.0, maxq=3, pmfail=0.0):
     """A seeded random input history for chart c."""
     hist = []
     ntr = len(c['trans'])
@@ -107,8 +107,10 @@ def random_history(rng, c, length, delays=(0,), advances=(), params=(0,), pfail=
         elif r < 0.5 and advances:
             hist.append({'op': 'adv', 'd': rng.choice(advances)})
         else:
-            hist.append({'op': 'exec', 'gv': [rng.random() < 0.5 for _ in range(ntr)], 'cfail': 0,
-                         'mfail': 0})
+            cf = rng.randint(1, 12) if rng.random() < pfail else 0
+            mf = rng.randint(1, 25) if (not cf and rng.random() < pmfail) else 0
+            hist.append({'op': 'exec', 'gv': [rng.random() < 0.5 for _ in range(ntr)], 'cfail': cf,
+                         'mfail': mf})
             q = max(0, q - 1)
     return hist
 
